@@ -330,6 +330,9 @@ func runCaseSharded(ctx *runner.Ctx, k cs, shard, nshards int) {
 		return
 	}
 	x := &csched.Explorer{PBound: k.P, EBound: k.E, FBound: k.F, Shard: shard, NShards: nshards, Opts: csched.Options{HashStates: true}, Stop: ctx.Expired}
+	if k.P >= 2 && k.F == 0 {
+		x.ShareDepth = 2 // unbounded free switches make subtree sizes uneven: deal one level deeper
+	}
 	var w *world
 	outcomes := map[string]bool{}
 	x.Explore(func() {
@@ -410,7 +413,7 @@ func work(ctx *runner.Ctx) {
 		if !quick || i == 15 {
 			cases = append(cases, cs{A: s, Regime: "all", P: 2})
 		}
-		if !quick || i%2 == 0 {
+		if !quick || i%4 == 0 {
 			cases = append(cases, cs{A: s, Regime: "dev", P: 1, E: 1})
 		}
 		cases = append(cases, cs{A: s, Regime: "dev", P: 0, E: 2})
@@ -456,7 +459,12 @@ func work(ctx *runner.Ctx) {
 			if quick && (i+j)%9 != 0 {
 				continue
 			}
-			cases = append(cases, cs{A: []Op{x, y}, B: []Op{y, x}, Regime: "all", P: 1})
+			if quick {
+				// both directions at once have four busy threads: bound the free switches too
+				cases = append(cases, cs{A: []Op{x, y}, B: []Op{y, x}, Regime: "all", P: 1, F: 4})
+			} else {
+				cases = append(cases, cs{A: []Op{x, y}, B: []Op{y, x}, Regime: "all", P: 1})
+			}
 			if !quick {
 				cases = append(cases, cs{A: []Op{x, flush, y}, B: []Op{y}, Regime: "dev", P: 0, E: 2})
 			}
@@ -531,7 +539,7 @@ func work(ctx *runner.Ctx) {
 		{{K: "d", N: 5000}, {K: "h"}},
 	}
 	for i, m := range mixed {
-		if quick && i == 2 {
+		if quick && i >= 1 {
 			cases = append(cases, cs{A: m, Regime: "all", P: 1})
 			continue
 		}
@@ -570,7 +578,7 @@ func work(ctx *runner.Ctx) {
 	// heaviest systems first, dealt round-robin, so that the workers finish together
 	weight := func(k cs) int {
 		switch {
-		case k.P >= 2:
+		case k.P >= 2, k.P >= 1 && len(k.A)+len(k.B) >= 4:
 			return 150000
 		case k.P == 1 && k.E >= 1:
 			return 20000
@@ -591,18 +599,39 @@ func work(ctx *runner.Ctx) {
 			if ctx.Shard == 0 {
 				ctx.Sample(k)
 			}
+			t0 := time.Now()
 			runCaseSharded(ctx, k, ctx.Shard, ctx.NShards)
+			if os.Getenv("C11_DEBUG") != "" {
+				dbg(ctx, "C11T heavy %.2fs shard=%d %s\n", time.Since(t0).Seconds(), ctx.Shard, desc(k))
+			}
 			continue
 		}
 		light++
 		if !ctx.Mine(light) {
 			continue
 		}
+		t0 := time.Now()
 		runCase(ctx, k)
+		if d := time.Since(t0); os.Getenv("C11_DEBUG") != "" && d > 300*time.Millisecond {
+			dbg(ctx, "C11T light %.2fs %s\n", d.Seconds(), desc(k))
+		}
 		if i%400 == 0 {
 			ctx.Sample(k)
 		}
 	}
+}
+
+func dbg(ctx *runner.Ctx, format string, a ...interface{}) {
+	f, err := os.OpenFile(fmt.Sprintf("%s.%d", os.Getenv("C11_DEBUG"), ctx.Shard), os.O_APPEND|os.O_CREATE|os.O_WRONLY, 0644)
+	if err != nil {
+		return
+	}
+	fmt.Fprintf(f, format, a...)
+	f.Close()
+}
+
+func desc(k cs) string {
+	return fmt.Sprintf("A=[%s] B=[%s] regime=%s P=%d E=%d F=%d", seqString(k.A), seqString(k.B), k.Regime, k.P, k.E, k.F)
 }
 
 func replay(ctx *runner.Ctx, raw json.RawMessage) {
